@@ -1,6 +1,7 @@
 (* Pinned statements of C05 (generated once by tools/mkpins.py from coq/props/C05.v, then committed). *)
 From DV Require Import Model.Base Model.Parser Model.Header Model.Readers Model.Uncompress
-  Proofs.Hoare Proofs.UncompressFrame props.C05.
+  Spec.NameSpec Spec.PacketSpec Spec.RecordSpec Spec.PlainSpec
+  Proofs.Hoare Proofs.UncompressFrame Proofs.QuestionSpec Proofs.UncompressSpec props.C05.
 Check (C05_header_kept : forall (p : bytes) (off : nat) (out : bytes) (o : nat),
   uncompress_with_previous_offset p off = Ok (out, o) ->
   firstn 12 out = firstn 12 p /\ 12 <= length out).
@@ -8,3 +9,11 @@ Print Assumptions C05_header_kept.
 Check (C05_name_copy_appends : forall name0 p off name l f,
   copy_uncompressed_name name0 p off = Ok (name, l, f) -> exists sfx, name = name0 ++ sfx).
 Print Assumptions C05_name_copy_appends.
+Check (C05_uncompress_is_plain_encoding : forall p v, bytes_ok p -> parse p = Ok v ->
+  exists qls qt qe e1 e2 lxa lxn lxr,
+    question_of p qls qt CLASS_IN /\ cname_l p 12 qls qe /\
+    records_at p (qe + 4) (map fst lxa) e1 /\ records_at p e1 (map fst lxn) e2 /\
+    records_at p e2 (map fst lxr) (length p) /\
+    Forall (fun rx => rdata_at p (fst rx) (snd rx)) (lxa ++ lxn ++ lxr) /\
+    uncompress p = Ok (firstn 12 p ++ plain_question qls qt CLASS_IN ++ concat (map plain_record (lxa ++ lxn ++ lxr)))).
+Print Assumptions C05_uncompress_is_plain_encoding.
